@@ -59,9 +59,23 @@ fn main() {
                 w_ttl: arg_u64(&args, "--w-ttl", 30),
                 collisions: arg_u64(&args, "--collisions", 0) == 1,
             };
-            for _ in 0..lives {
-                let cfg = cache::random_config(&mut rng);
-                cache::cache_life(&mut out, &mut rng, &cfg, &g);
+            let sweep = arg_u64(&args, "--sweep", 0) == 1;
+            if sweep {
+                // finalize() verdicts over the boundary configurations
+                for &nc in &[0usize, 1, 2, 70] {
+                    for &mc in &[0i64, 1, -1, 100] {
+                        for &bs in &[0usize, 1, 64] {
+                            out.line(&cache::finalize_line(nc, mc, bs));
+                        }
+                    }
+                }
+            }
+            for i in 0..lives {
+                let cfg = if sweep { cache::sweep_config(&mut rng, i) } else { cache::random_config(&mut rng) };
+                // a panic escaping a life (e.g. inside a snapshot) is itself an observation
+                if catch(|| cache::cache_life(&mut out, &mut rng, &cfg, &g)).is_none() {
+                    out.line(&format!("c.life counters={} | PANIC", cfg.num_counters));
+                }
             }
         }
         // re-execute the actions of a recorded cache trace
